@@ -42,6 +42,9 @@ type Scenario struct {
 	Ctl     []Ctl        `json:"ctl,omitempty"`
 	// Stall allows the scheduler to advance the clock while other events are enabled.
 	Stall bool `json:"stall,omitempty"`
+	// Sibling: a second Server value in the same process holds this many idle connections
+	// open for the whole run (C20: the exported gauges are shared by all servers of a process)
+	Sibling int `json:"sibling,omitempty"`
 	// Faulty marks fault-injecting configurations (oracles relax narrowly under it).
 	Faulty bool `json:"faulty,omitempty"`
 	// LogLevelDebug etc. are always on: the simulated logger records every call.
